@@ -41,6 +41,13 @@
      MRedo i              direct Buffer.redo() on buffer i
      MAsync i t c         buffer i changed to (t, c) outside any dispatch
      MCpr                 a cursor position report (no _call_handler)
+     MNewPrompt i t c f   the next prompt on the same session: PromptSession.prompt()
+                          resets buffer i (its default buffer) to the new document
+                          - both stacks emptied - and Application.reset() ->
+                          KeyProcessor.reset() forgets the previous handler; the
+                          other buffers keep text and stacks; the focus stays where
+                          it is unless the focused control is not focusable (f is
+                          the focus afterwards)
    Definitions only; proofs are in Proofs/C07_MultiFacts.v. *)
 From Coq Require Import ZArith List Bool.
 From PTK Require Import Lib.Sx Lib.Py Model.C07_Undo Model.C07_Keys.
@@ -70,7 +77,8 @@ Inductive mev :=
 | MFocus (i : Z)
 | MRedo (i : Z)
 | MAsync (i : Z) (t : str) (c : Z)
-| MCpr.
+| MCpr
+| MNewPrompt (i : Z) (t : str) (c : Z) (foc' : Z).
 
 (* the key processor's view: the focused buffer and the previous handler *)
 Definition foc_kst (s : mst) : kst := mkkst (mbufs s (mfoc s)) (mprev s).
@@ -88,6 +96,7 @@ Definition mstep (tbl : list row) (s : mst) (e : mev) : mst :=
   | MRedo i => mkmst (upd (mbufs s) i (redo (mbufs s i))) (mfoc s) (mprev s)
   | MAsync i t c => mkmst (upd (mbufs s) i (set_state (mbufs s i) t c)) (mfoc s) (mprev s)
   | MCpr => s
+  | MNewPrompt i t c f' => mkmst (upd (mbufs s) i (ustep (mbufs s i) (Reset t c))) f' None
   end.
 
 Definition mrun (tbl : list row) (s : mst) (evs : list mev) : mst :=
@@ -121,6 +130,7 @@ Definition mproj (tbl : list row) (i : Z) (s : mst) (e : mev) : list uop :=
   | MRedo j => if j =? i then [Redo] else []
   | MAsync j t c => if j =? i then [Cmd false t c] else []
   | MCpr => []
+  | MNewPrompt j t c _ => if j =? i then [Reset t c] else []
   end.
 
 Fixpoint mproj_all (tbl : list row) (i : Z) (s : mst) (evs : list mev) : list uop :=
@@ -144,6 +154,7 @@ Definition mhist_step (s : mst) (e : mev) (hist : Z -> list snap) : Z -> list sn
       fun i => if existsb (resets i) effs then [] else here (mbufs s i) :: hist i
   | MUndoKey _ _ _ | MRedo _ | MAsync _ _ _ => fun i => here (mbufs s i) :: hist i
   | MFocus _ | MCpr => hist
+  | MNewPrompt j _ _ _ => fun i => if j =? i then [] else hist i
   end.
 
 Definition mgstep (tbl : list row) (g : mst * (Z -> list snap)) (e : mev) : mst * (Z -> list snap) :=
@@ -160,7 +171,7 @@ Definition mev_ok (e : mev) : Prop :=
   match e with
   | MKey _ n effs _ => 0 <= n /\ Forall fx_ok effs
   | MUndoKey _ n _ => 0 <= n
-  | MAsync _ t c => 0 <= c <= len t
+  | MAsync _ t c | MNewPrompt _ t c _ => 0 <= c <= len t
   | MFocus _ | MRedo _ | MCpr => True
   end.
 
@@ -197,7 +208,7 @@ Definition disciplined (tbl : list row) (s : mst) (e : mev) : Prop :=
          dispatch was an if_no_repeat binding and the target has no snapshot *)
       forall h, mprev s = Some h -> r_cls (lookup tbl h) = 2 -> ustack (mbufs s i) <> []
   | MAsync i t _ => t = utext (mbufs s i) \/ ustack (mbufs s i) <> []
-  | MRedo _ | MCpr => True
+  | MRedo _ | MCpr | MNewPrompt _ _ _ _ => True
   end.
 
 Fixpoint all_disciplined (tbl : list row) (s : mst) (evs : list mev) : Prop :=
@@ -267,6 +278,11 @@ Definition dec_mev (tbl : list row) (nb : Z) (x : sx) : option mev :=
       | None => None
       end
   | L [A 4] => Some MCpr
+  | L [A 5; A i; t; A c; A f'] =>
+      match as_str t with
+      | Some t' => if idx_ok nb i && idx_ok nb f' && (0 <=? c) && (c <=? len t') then Some (MNewPrompt i t' c f') else None
+      | None => None
+      end
   | _ => None
   end.
 
